@@ -141,13 +141,17 @@ def load_lookup(R):
                         "self._fn_reference._qualified_name == BUILD(cluster_name, module_name, function_name, version)",
                         "self._version == version",
                         # ... and the parameter names that were recorded with the stored reference
-                        "same(self._fn_reference.parameter_names, parameter_names)"],
+                        "same(self._fn_reference.parameter_names, parameter_names)",
+                        # the stub's reference points back at the stub: a reference reported as external still has a function object behind it
+                        "implies(fn_reference is None, same(self._fn_reference._memento_fn, self))"],
                modifies=["self.*"])
     R.contract("reference:FunctionReference.from_qualified_name", prop="C12", ghost_params=GP,
                types={"qualified_name": TStr, "partial_args": TObj(), "partial_kwargs": TObj(), "parameter_names": TObj(), "external": TBool}, returns=TOpt(FRE),
                requires=["ADMISSIBLE(ghost('c'), ghost('m'), ghost('f'), ghost('v'))", "ghost('v') is not None", "qualified_name == BUILD(ghost('c'), ghost('m'), ghost('f'), ghost('v'))"],
                # reading a stored name never raises, whichever of {module missing, attribute missing, not a memento function, version mismatch} happens
                ensures=["result is not None",
+                        # "reported as external references": a reference always has a function object behind it -- the one found, or the unbound external stub -- never nothing
+                        "result._memento_fn is not None",
                         "implies(result.external, result._qualified_name == qualified_name)",
                         "implies(external, result.external)",
                         # from the property ("an entry whose own version is current is served ... references to versions that no longer exist are reported as
